@@ -80,7 +80,7 @@ func TestMain(m *testing.M) {
 	// runtime components, they do not touch the provider's state. Its cron thread is stopped
 	// right away so that the process runs nothing but the test goroutine and the watchdog.
 	erp = interpreter.NewECALRuntimeProvider(srcName, nil, nil)
-	erp.Cron.Stop()
+	go erp.Cron.Stop() // detached: never wait for it
 	go watchdog()
 	hx.Main(m, "C07", rule)
 }
